@@ -5,7 +5,7 @@ import json, sys, re, os, collections
 res = collections.OrderedDict()
 for f in sys.argv[1:]:
     for l in open(f, errors='replace'):
-        m = re.match(r'MATRIX (\S+) (\S+) exit=(\d+) (\d+)s ?(.*)', l)
+        m = re.match(r'MATRIX (\S+) (\S+) exit=(\d+) (\d+)s ?(?:cases=\d* )?(.*)', l)
         if m:
             seed, cid, rc, secs, msg = m.groups()
             res.setdefault(seed, collections.OrderedDict())[cid] = {"exit": int(rc), "seconds": int(secs), "first_failure": msg.strip()[:200]}
